@@ -8,6 +8,7 @@ import (
 	"testing"
 	"time"
 
+	"github.com/thushan/olla/verifharness/client"
 	"github.com/thushan/olla/verifharness/fw"
 	"github.com/thushan/olla/verifharness/rep"
 	"github.com/thushan/olla/verifharness/world"
@@ -45,7 +46,7 @@ type job struct {
 func TestC02(t *testing.T) {
 	world.Quiet()
 	run := rep.New("C02", "fault_enumeration",
-		"every assignment of a fault script (ok, refuse, reset/eof/garbage before headers, close/reset after headers and after k body bytes with Content-Length and chunked framing, truncated chunked / Content-Length bodies, backend 4xx/5xx; thorough: stalls, large and SSE bodies) to 1..2 endpoints exhaustively and to 3 endpoints by seeded sample (thorough: exhaustively for a reduced menu), per engine (thorough: x balancer); origin-tagged statuses/headers/bodies; oracle: single origin, contiguous in-order records, never more than that attempt wrote, full body if it completed, no attempt started after the delivered attempt's first byte. distinct = distinct (engine, balancer, fault assignment)")
+		"every assignment of a fault script (ok, refuse, reset/eof/garbage before headers, close/reset after headers and after k body bytes with Content-Length and chunked framing, truncated chunked / Content-Length bodies, backend 4xx/5xx; thorough: stalls, large and SSE bodies) to 1..2 endpoints exhaustively and to 3 endpoints by seeded sample (thorough: exhaustively for a reduced menu), per engine (thorough: x balancer); origin-tagged statuses/headers/bodies; oracle: single origin, contiguous in-order records, never more than that attempt wrote, full body if it completed, no attempt started after the delivered attempt's first byte; plus a concurrent phase: 16 senders keep requests with per-request fault scripts (keyed by nonce) in flight through one 3-endpoint stack per engine x balancer while endpoints are re-admitted, and every response must additionally be an attempt made for that very request (pooled buffers / connections never leak one request's response into another). distinct = distinct (engine, balancer, fault assignment)")
 	run.Assume("fault-script backends answer with Connection: close and requests are non-idempotent POSTs, so every backend record is exactly one Olla attempt (Go's transport never replays them itself)")
 	run.Assume("whether a truncated backend body must surface to the client as an error is not judged (counted as silent_truncations)")
 	rng := rand.New(rand.NewSource(rep.Seed()))
@@ -117,6 +118,8 @@ func TestC02(t *testing.T) {
 	}
 	close(ch)
 	wg.Wait()
+	concurrentPhase(run, rng)
+	run.Require("concurrent_cases_with_response_judged", int64(rep.Pick(600, 6000)/map[bool]int{true: 4, false: 1}[rep.Mode() == "race"]))
 	run.Require("cases_with_response_judged", int64(rep.Pick(400, 5000)/map[bool]int{true: 4, false: 1}[rep.Mode() == "race"]))
 	run.Require("cases_after_started_response_failed", 20)
 	run.Finish(t)
@@ -135,6 +138,124 @@ func runChunk(run *rep.Run, j job, cases [][]fw.Fault, id int) {
 		judge(run, c)
 		f.Readmit()
 	}
+}
+
+// concurrentPhase keeps many requests with different per-request fault scripts in flight
+// through one stack (the engines share buffer pools, connection pools and retry state
+// between requests): every response must still be the work of one attempt, and of an
+// attempt made for that very request.
+func concurrentPhase(run *rep.Run, rng *rand.Rand) {
+	menu := []fw.Fault{
+		{Kind: "ok"}, {Kind: "ok", Chunked: true}, {Kind: "ok", Records: 700, GapUS: 200}, {Kind: "ok", Records: 2500, Chunked: true, GapUS: 300},
+		{Kind: "ok", Records: 300, Chunked: true, CT: "text/event-stream", GapUS: 500},
+		{Kind: "cut_close", CutAt: 200}, {Kind: "cut_reset", CutAt: 639, Chunked: true}, {Kind: "cut_reset", CutAt: 9000, Records: 2500, GapUS: 200},
+		{Kind: "trunc_chunked"}, {Kind: "status", Status: 500}, {Kind: "status", Status: 404},
+		{Kind: "reset_before_headers"}, {Kind: "eof_before_headers"},
+	}
+	rounds := rep.Pick(3, 12)
+	per := rep.Pick(120, 400)
+	if rep.Mode() == "race" {
+		rounds, per = rep.Pick(2, 4), rep.Pick(80, 200)
+	}
+	for _, eng := range []string{"sherpa", "olla"} {
+		for r := 0; r < rounds; r++ {
+			bal := []string{"round-robin", "least-connections", "priority"}[r%3]
+			f, err := fw.New(fw.Opt{Engine: eng, Balancer: bal, N: 3, Priorities: []int{100, 100, 100}, ReadTimeout: 5 * time.Second})
+			if err != nil {
+				run.Inconclusive("world failed to start: " + err.Error())
+				return
+			}
+			type sent struct {
+				nonce string
+				fs    []fw.Fault
+				res   *client.Result
+			}
+			all := make([]*sent, per)
+			for i := range all {
+				fs := make([]fw.Fault, 3)
+				for j := range fs {
+					fs[j] = menu[rng.Intn(len(menu))]
+					if rng.Intn(3) > 0 { // keep most endpoints serving so that failovers have somewhere to go
+						fs[j] = menu[rng.Intn(5)]
+					}
+				}
+				all[i] = &sent{nonce: fmt.Sprintf("q%s%dr%di%d", eng[:1], r, rep.Seed()%100, i), fs: fs}
+				f.SetFor(all[i].nonce, fs)
+			}
+			stop := make(chan struct{})
+			var bg sync.WaitGroup
+			bg.Add(1)
+			go func() { // connection-level failures take endpoints out of rotation; put them back
+				defer bg.Done()
+				for {
+					select {
+					case <-stop:
+						return
+					case <-time.After(40 * time.Millisecond):
+						f.Readmit()
+						f.W.CloseEngineBreakers("b0", "b1", "b2")
+					}
+				}
+			}()
+			var wg sync.WaitGroup
+			next := int64(-1)
+			var mu sync.Mutex
+			for wk := 0; wk < 16; wk++ {
+				wg.Add(1)
+				go func() {
+					defer wg.Done()
+					hc := world.NewClient(false, 15*time.Second)
+					for {
+						mu.Lock()
+						next++
+						i := next
+						mu.Unlock()
+						if int(i) >= len(all) {
+							return
+						}
+						all[i].res = f.Send(hc, all[i].nonce, "")
+					}
+				}()
+			}
+			wg.Wait()
+			close(stop)
+			bg.Wait()
+			got := f.Collect()
+			for _, s := range all {
+				c := &fw.Case{Faults: s.fs, Nonce: s.nonce, Res: s.res, Attempts: got[s.nonce], Engine: eng, Balancer: bal + "/concurrent"}
+				before := run.Get("cases_with_response_judged")
+				judgeConc(run, c, got)
+				run.Count("concurrent_cases_with_response_judged", run.Get("cases_with_response_judged")-before)
+			}
+			f.Close()
+		}
+	}
+}
+
+// judgeConc: the sequential oracle plus "the delivered attempt was made for this request".
+func judgeConc(run *rep.Run, c *fw.Case, all map[string][]*fw.Attempt) {
+	if xo := c.Res.Header.Values("X-Origin"); len(xo) > 0 {
+		mine := false
+		for _, a := range c.Attempts {
+			if fmt.Sprintf("%d|%03d", a.Backend, a.Attempt%1000) == xo[0] {
+				mine = true
+			}
+		}
+		if !mine {
+			other := ""
+			for n, as := range all {
+				for _, a := range as {
+					if fmt.Sprintf("%d|%03d", a.Backend, a.Attempt%1000) == xo[0] {
+						other = n
+					}
+				}
+			}
+			run.Violation("C02/response-of-another-request", fmt.Sprintf("request %s received the response of attempt %s, which a backend made for request %q", c.Nonce, xo[0], other),
+				map[string]any{"case": key(c), "client": c.Res, "own_attempts": c.Attempts})
+			return
+		}
+	}
+	judge(run, c)
 }
 
 func key(c *fw.Case) string {
